@@ -62,6 +62,7 @@ type Proc struct {
 	Env    []string
 	Parent *Proc
 	labels *labelSet
+	Cwd    string // working directory ("" = "/")
 
 	state    ProcState
 	ExitCode int
